@@ -278,6 +278,9 @@ Run(i, w) ==
             Run(i, SetK(w2, i, <<[t |-> "seq", ss |-> top.s.body \o <<EndBody>>, env |-> benv], top>> \o rest))
      ELSE LET nx == RangeNext(top.s, top.st, c.heap, w.flags) IN
        IF ~nx.ok THEN Run(i, SetK(w1, i, rest))
+       \* vf = "idx": the index operand kk+1 of  kk, w[kk+1] = k, v  is evaluated (and bounds-checked) first
+       ELSE IF top.s.vf = "idx" /\ (Get(w1, c.penv, "kk") + 1 > 7 \/ Get(w1, c.penv, "kk") + 1 < 0)
+       THEN [st |-> "panic", w |-> [w1 EXCEPT !.panic = "runtime error: index out of range [" \o ToString(Get(w1, c.penv, "kk") + 1) \o "] with length 8"]]
        ELSE LET fr == [top EXCEPT !.st.idx = @ + 1]
                 \* `:=` declares fresh variables for the iteration; `=` assigns kk / vv of the function
                 ck == IF top.s.kf = "def" THEN Alloc(w1, nx.k) ELSE [id |-> 0, w |-> w1]
